@@ -220,6 +220,20 @@ func (rs *Store) LoadVersion(ver int64) error {
 			if err != nil {
 				return fmt.Errorf("failed to load Store: %v", err)
 			}
+			// No multistore version has ever been committed.  If the node died between two
+			// substore batches of the very first Commit, some IAVL substores already hold
+			// version 1 on disk and iavl's LoadVersion(0) ("latest") would load it, leaving the
+			// multistore at version 0 over substores at version 1.  Discard that uncommitted
+			// version and load the (now empty) substore again.
+			if s, ok := store.(*iavl.Store); ok && s.LastCommitID().Version != 0 {
+				if err := s.Rollback(0); err != nil {
+					return fmt.Errorf("failed to discard uncommitted version of Store: %v", err)
+				}
+				store, err = rs.loadCommitStoreFromParams(key, types.CommitID{}, storeParams)
+				if err != nil {
+					return fmt.Errorf("failed to load Store: %v", err)
+				}
+			}
 
 			rs.stores[key] = store
 		}
